@@ -506,3 +506,8 @@ def run(ctx: Ctx, rep: Report, tier: str):
     from rules.C06 import C06 as _C06b
     alias(rep, ["C06.R5"], "C08.R10", "what the loader rebuilds equals what was live: every stored entry is re-indexed and re-queued exactly when its persisted `changed` flag is set "
           "(C06.R5) - a discarded entry that a new event re-queued is still queued after a restart", 4, lambda: _C06b(ctx, rep).r5())
+    from rules.decisions import decision_table, table_sites
+    rep.rule("C08.DT", "decision table (rules/decisions.json) of serialisation, the dirty marking of entry halves and the storage write-through: for every function and every action shape (an impure call with the parameters it passes, a store to an "
+             "attribute or item, a delete, a returned constant, a yield, a raise) the set of states - over the function's guard atoms - in which the action is taken "
+             "equals the recorded one; compared as canonical decision diagrams, so any equivalent respelling of the guards is the same table", table_sites("C08"))
+    section(rep, lambda: decision_table(ctx, rep, "C08.DT", "C08"))
